@@ -140,7 +140,8 @@ func (g *TxGen) Next(sm *fsm.StateMachine) ([]byte, string) {
 			{fsm.ParamSpaceVal, fsm.ParamMinimumStakeForValidators, []uint64{0, 500, 2000}},
 			{fsm.ParamSpaceGov, fsm.ParamDAORewardPercentage, []uint64{0, 5, 50}},
 			{fsm.ParamSpaceCons, fsm.ParamBlockSize, []uint64{1000000, 2000000, 1, 100}}, // 1 and 100 are rejected (below the header size) after the field was set
-		}[g.R.Intn(8)]
+			{fsm.ParamSpaceVal, fsm.ParamMaxCommittees, []uint64{1, 2, 2, 15}},           // lowering it re-conforms every validator above the limit
+		}[g.R.Intn(9)]
 		v := p.vals[g.R.Intn(len(p.vals))]
 		if g.R.Chance(30) { // the rejected-after-mutation combination, see below
 			p.space, p.key, v = fsm.ParamSpaceVal, fsm.ParamUnstakingBlocks, 0
